@@ -468,7 +468,7 @@ public:
 		if (node.empty())
 			return end();
 		if (!pvCheckHint(hint, node.value()))
-			return insert(std::move(node)).position;
+			return mTreeSet.Insert(std::move(NodeTypeProxy::GetExtractedItem(node))).position;
 		return mTreeSet.Add(hint, std::move(NodeTypeProxy::GetExtractedItem(node)));
 	}
 
